@@ -142,7 +142,8 @@ def sync_cases(tier, seed):
                 pres = [[], [em(0, ["n", "5"])], [em(1, ["n", "6"])], [em(0, ["n", "5"]), em(1, ["n", "6"])]]
                 pairs = [(em(0, items[0]), em(1, items[1])), (em(0, items[0]), ["unsub"]), (em(1, items[1]), ["unsub"]),
                          (em(0, "c"), em(1, items[1])), (em(0, ["e", "3"]), em(1, "c")), (em(0, "c"), ["unsub"]),
-                         (em(1, ["e", "3"]), ["unsub"]), (["unsub"], em(0, items[0])), (em(1, "c"), em(0, "c"))]
+                         (em(1, ["e", "3"]), ["unsub"]), (["unsub"], em(0, items[0])), (em(1, "c"), em(0, "c")),
+                         (em(0, items[0]), em(1, ["e", "3"])), (em(1, ["e", "3"]), em(0, items[0]))]
                 for pre in (pres if tier != "quick" else [pres[rng.randrange(4)], pres[3]]):
                     for a, b in pairs:
                         for k in range(0, 9):
@@ -177,10 +178,58 @@ def has_time_op(case):
                       "delaysub"})
 
 
+FORWARD_ERR = {"merge": (0, 1), "zip": (0, 1), "combine": (0, 1), "withlatest": (0, 1), "sample": (0, 1),
+               "buffer": (0, 1), "takeuntil": (0,), "skipuntil": (0,)}
+TRANSPARENT = ("map", "filter", "scan", "fin")
+
+
+def error_inputs(pipe):
+    """hot subjects whose error must reach the subscriber at once: inputs of a two-input combinator that
+    forwards errors from that side, with nothing but error-transparent operators on the way"""
+    node = pipe
+    while isinstance(node, list) and node and node[0] in TRANSPARENT:
+        node = node[-1]
+    if not (isinstance(node, list) and node and node[0] in FORWARD_ERR):
+        return set()
+    out = set()
+    for side in FORWARD_ERR[node[0]]:
+        x = node[1 + side]
+        while isinstance(x, list) and x and x[0] in TRANSPARENT:
+            x = x[-1]
+        if isinstance(x, list) and x and x[0] == "hot":
+            out.add(x[1])
+    return out
+
+
 def sync_oracle(case, lines):
     f = oracle(case, lines, quiet=True)
     if f:
         return f
+    # an error on a live input terminates the merged stream with that error (C04's clause, here with the two
+    # inputs fed from two threads): once the event in which it was emitted is over, it has been delivered —
+    # unless the stream had already terminated or been unsubscribed before that event
+    errs = error_inputs(case.field("pipe")[0])
+    ended = False
+    dead_inputs = set()
+    for k, ev in enumerate(case.events):
+        got = parse_line(lines.get(k))
+        if not got or "o" not in got:
+            continue
+        ops = [ev[2], ev[3]] if ev[0] == "par" else [ev]
+        want = [o for o in ops if o[0] == "emit" and isinstance(o[2], list) and o[2][0] == "e"
+                and o[1] in errs and o[1] not in dead_inputs]
+        unsub_here = any(o[0] == "unsub" for o in ops)
+        term_ops = [o for o in ops if o[0] == "emit" and (o[2] == "c" or (isinstance(o[2], list) and o[2][0] == "e"))]
+        if want and not ended and not unsub_here and len(term_ops) == 1:
+            # (another terminal delivered in the same event — e.g. the other input completing the stream through a
+            # `take` — may legitimately have come first)
+            if not any(x and x[0] in "EC" for x in got["o"]):
+                return {"kind": "error-lost", "event": k,
+                        "detail": f"input {want[0][1]} failed with {want[0][2][1]} in {ev}; delivered in that event: {got['o']}"}
+        for o in term_ops:
+            dead_inputs.add(o[1])
+        if unsub_here or any(x and x[0] in "EC" for x in got["o"]):
+            ended = True
     log = ""
     for k in range(len(case.events)):
         got = parse_line(lines.get(k))
